@@ -131,4 +131,7 @@ class MoreInfoFromHeaderMixin:
         if referrer is None:
             return None
 
-        return URL(url=referrer)
+        try:
+            return URL(url=referrer)
+        except ValueError:  # not a URL, e.g. "http://[x"
+            return None
